@@ -85,6 +85,7 @@ bool is_enabled(const Th *t) {
             return r;
         }
         case OP_NONE: return false;
+        case OP_IDLEWAIT: return false;   // decided in views(), after everybody else
         default: return true;
     }
 }
@@ -105,6 +106,12 @@ void views(std::vector<ThreadView> &out) {
         v.held = t->held;
         out.push_back(v);
     }
+    bool others = false;
+    for (auto &v : out)
+        if (v.enabled) others = true;
+    if (!others)
+        for (auto &v : out)
+            if (!v.finished && v.pending == OP_IDLEWAIT) v.enabled = true;
 }
 
 void finish_run(int result, Th *me) {
@@ -135,7 +142,7 @@ void dispatch(Th *me) {
         }
         if (!any_enabled) {
             if (all_finished) {
-                g_ctl->on_all_finished();
+                g_ctl->on_all_finished(vv);
                 finish_run(0, me);
                 return;
             }
@@ -254,6 +261,7 @@ const char *op_name(OpKind k) {
         case OP_SLEEP: return "SLEEP";
         case OP_EXIT: return "EXIT";
         case OP_TRYLOCK: return "TRYLOCK";
+        case OP_IDLEWAIT: return "IDLEWAIT";
     }
     return "?";
 }
@@ -315,6 +323,14 @@ void block_until(const char *label, const std::function<bool()> &pred) {
     set_pending(me, OP_HWAIT, nullptr, nullptr, label);
     dispatch(me);
     me->pred = nullptr;
+    applied(me);
+}
+
+void wait_quiescent(const char *label) {
+    if (!managed()) return;
+    Th *me = tl_me;
+    set_pending(me, OP_IDLEWAIT, nullptr, nullptr, label);
+    dispatch(me);
     applied(me);
 }
 
